@@ -401,6 +401,8 @@ struct C15 : Scenario {
 		for (size_t k = 0; k < p.tasks.size() && res.ok; ++k) {
 			if (outs[k].budget) { res.fail("C15.budget", "budget", strf("reader %zu: a call did not return within the step budget (%s)", k, outs[k].budget_api.c_str())); break; }
 			if (outs[k].c11_bad) { res.fail("C11.invariant", "c11", outs[k].c11_why); break; }
+			// (no allocation fails in these runs and the file is there: a source that cannot even be opened yields fewer members)
+			if (outs[k].open_failed) { res.fail("C15.headers", "open_failed", strf("reader %zu/%zu (%s): the archive could not be opened although nothing failed", k, p.tasks.size(), p.tasks[k].kind.c_str())); break; }
 			ModelVerdict mv = model_check(canons[cut_of(p.tasks[k])], p.tasks[k], outs[k]);
 			represented += mv.represented;
 			touched += mv.touched;
